@@ -40,6 +40,8 @@ def check(ctx, rep, tier):
     _two_digit(ctx, rep, eng)
     _field_names(ctx, rep, eng)
     _month_names(ctx, rep, eng)
+    from . import spellings
+    spellings.check(ctx, rep, "month-spellings", lambda g: g in ("january","february","march","april","may","june","july","august","september","october","november","december","named_month"), floor=2)
     report_undecided(rep, eng)
     rep.assume("not decided: that all notations select the same candidate (ranking); regex "
                "coverage of every notation")
@@ -95,7 +97,8 @@ def _varies_with_ts(eng, p, term):
     from .relspec import leaves_of, ts_sweep
     if _TS_SAMPLES is None:
         sw = ts_sweep("quick")
-        _TS_SAMPLES = sw[::max(1, len(sw) // 60)] + sw[-30:]
+        from .relspec import stride as _stride
+        _TS_SAMPLES = sw[::_stride(len(sw), 60)] + sw[-30:]
     leaves = set()
     leaves_of(term, leaves)
     conds = []
